@@ -132,6 +132,21 @@ def fsInit (rej : List σ) (st : St σ) : List (σ × FileState) → Out σ
       let o' := fsInit rej o.st rest
       ⟨o'.st, o.calls ++ o'.calls, o'.err⟩
 
+/-- kind of an entry of the configured directory as `os.ReadDir` reports it (symbolic links are not followed there) -/
+inductive EntryKind where
+  | regular | symlink | directory
+deriving DecidableEq, Repr
+
+/-- `sources()`: every entry of the configured directory but the sub directories.  A symbolic link is an entry of its
+own kind whatever it points to; it is followed when the file is opened, so its `FileState` is the one of its target
+(`missing` if it dangles, `invalid` if it points to a directory) -/
+def fsSources (entries : List (σ × EntryKind × FileState)) : List (σ × FileState) :=
+  entries.filterMap fun (n, k, f) => if k = .directory then none else some (n, f)
+
+/-- `Start`: initial load of everything `sources()` returns -/
+def fsStart (rej : List σ) (entries : List (σ × EntryKind × FileState)) : Out σ :=
+  fsInit rej St.init (fsSources entries)
+
 /-! ## http_endpoint (`watchChanges`, `ruleSetsUpdated`) -/
 
 inductive HttpOutcome where
